@@ -55,6 +55,18 @@ fn key_space_point() {
 
 unsafe extern "C" {
     fn __shuttle_benign_unwind_reset();
+    fn __shuttle_benign_unwind(delta: i32);
+}
+
+/// Balance the panic hook's `+1` once a hooked panic has been caught by the harness.
+fn caught(payload: &(dyn std::any::Any + Send)) {
+    if payload.downcast_ref::<salsa::Cancelled>().is_none() {
+        unsafe { __shuttle_benign_unwind(-1) };
+    }
+}
+
+fn normalise_panic(message: &str) -> String {
+    simcore::observe::mask_key_spaces(&message.replace(|c: char| c.is_ascii_digit(), "#"))
 }
 
 zydeco_utils::new_key_type! {
@@ -109,10 +121,22 @@ fn reader_answer(observer: &Observer, snapshot: &zydeco_session::CompilerSession
 }
 
 fn classify_payload(payload: &(dyn std::any::Any + Send)) -> (String, bool) {
+    caught(payload);
     if let Some(cancelled) = payload.downcast_ref::<salsa::Cancelled>() {
         (format!("reraised-cancellation({cancelled:?})"), true)
     } else {
-        (format!("panic({})", zysim_common::panic_message(payload)), false)
+        (format!("panic({})", normalise_panic(&zysim_common::panic_message(payload))), false)
+    }
+}
+
+/// Run an oracle computation; a panic is part of the sequential answer.
+fn sequentially(body: impl FnOnce() -> String) -> String {
+    match catch_unwind(AssertUnwindSafe(body)) {
+        | Ok(answer) => answer,
+        | Err(payload) => {
+            caught(&*payload);
+            format!("panic({})", normalise_panic(&zysim_common::panic_message(&*payload)))
+        }
     }
 }
 
@@ -128,7 +152,9 @@ fn scenario(workload: Arc<Workload>, run_dir: PathBuf, log: Arc<Log>) {
         if !op.allowed(&state.model) {
             continue;
         }
-        apply_owner_op(&mut state, &s_side, op);
+        if let Err(payload) = catch_unwind(AssertUnwindSafe(|| apply_owner_op(&mut state, &s_side, op))) {
+            caught(&*payload); // a sequential panic during set-up is not C17's concern
+        }
     }
     state.versions.push(state.model.clone());
     let shared = Arc::new(shuttle::sync::Mutex::new(state));
@@ -159,9 +185,12 @@ fn scenario(workload: Arc<Workload>, run_dir: PathBuf, log: Arc<Log>) {
                         "invoke": invoke, "return": ret, "version": version})),
                     | Err(payload) => {
                         let (what, _) = classify_payload(&*payload);
-                        log.push(json!({"task": "owner", "kind": "edit-panicked", "index": index, "op": step.op.abstract_label(),
+                        let kind = if step.op.is_query() { "owner-query-panicked" } else { "edit-panicked" };
+                        log.push(json!({"task": "owner", "kind": kind, "index": index, "op": step.op.abstract_label(),
                             "invoke": invoke, "return": ret, "what": what}));
-                        return;
+                        if !step.op.is_query() {
+                            return;
+                        }
                     }
                 }
             }
@@ -178,12 +207,21 @@ fn scenario(workload: Arc<Workload>, run_dir: PathBuf, log: Arc<Log>) {
             let observer = Observer { side: &s_side, strictness: Strictness::Exact };
             for (index, step) in steps.iter().enumerate() {
                 sleeps(step.sleeps);
-                let (snapshot, version, snapshot_seq) = {
+                let root = step.root;
+                let root_path = s_side.path(root);
+                // cajun's refresh_with_progress: the document revision is read under one
+                // acquisition of the session mutex, the snapshot is taken under a second one
+                let revision_before = {
+                    let guard = shared.lock().unwrap_or_else(|e| e.into_inner());
+                    guard.owner.revision(&root_path)
+                };
+                sleeps(step.sleeps % 3);
+                let (snapshot, version, snapshot_seq, document_at_snapshot) = {
                     let guard = shared.lock().unwrap_or_else(|e| e.into_inner());
                     let snapshot = guard.owner.snapshot();
-                    (snapshot, guard.versions.len() - 1, log.tick())
+                    let document = guard.model.slots[root].overlay.as_ref().map(|c| c.render(&s_side, root));
+                    (snapshot, guard.versions.len() - 1, log.tick(), document)
                 };
-                let root = step.root;
                 let script = step.script.clone();
                 let observer_ref = &observer;
                 let outcome = catch_unwind(AssertUnwindSafe(move || {
@@ -202,9 +240,19 @@ fn scenario(workload: Arc<Workload>, run_dir: PathBuf, log: Arc<Log>) {
                         ("crashed", what)
                     }
                 };
+                // cajun's commit_analysis: under the mutex, a result is committed only if the
+                // document revision is still the one read before the analysis
+                let (committed, document_at_commit, revision_after) = {
+                    let guard = shared.lock().unwrap_or_else(|e| e.into_inner());
+                    let revision_after = guard.owner.revision(&root_path);
+                    let document = guard.model.slots[root].overlay.as_ref().map(|c| c.render(&s_side, root));
+                    (status == "completed" && revision_after == revision_before, document, revision_after)
+                };
                 log.push(json!({"task": format!("reader{reader}"), "kind": "analysis", "index": index, "root": root,
                     "script": step.script.to_json(), "version": version, "snapshot": snapshot_seq, "result": result_seq,
-                    "status": status, "detail": detail}));
+                    "status": status, "detail": detail, "committed": committed,
+                    "revision_before": revision_before, "revision_after": revision_after,
+                    "document_unchanged": document_at_snapshot == document_at_commit}));
             }
         }));
     }
@@ -222,6 +270,7 @@ fn scenario(workload: Arc<Workload>, run_dir: PathBuf, log: Arc<Log>) {
             }
             log.push(json!({"task": format!("allocator{task}"), "kind": "key-spaces", "spaces": spaces}));
         }));
+        let _ = task;
     }
 
     // ---- check_resolved on snapshots
@@ -273,7 +322,7 @@ fn scenario(workload: Arc<Workload>, run_dir: PathBuf, log: Arc<Log>) {
     let events: Vec<Value> = log.events.lock().unwrap_or_else(|e| e.into_inner()).clone();
     let mut wanted: BTreeSet<(usize, usize, String)> = BTreeSet::new();
     for event in &events {
-        if event["status"] == "completed" {
+        if event["status"] == "completed" || event["status"] == "crashed" {
             let script = if event["kind"] == "check_resolved" { json!("check_resolved") } else { event["script"].clone() };
             wanted.insert((event["version"].as_u64().unwrap() as usize, event["root"].as_u64().unwrap() as usize, script.to_string()));
         }
@@ -286,12 +335,14 @@ fn scenario(workload: Arc<Workload>, run_dir: PathBuf, log: Arc<Log>) {
         let model = &state.versions[version];
         let fresh = fresh_session(&f_side, model);
         for (root, script_text) in asks {
-            let expected = if script_text == "\"check_resolved\"" {
-                observe_f.ask_raw(&fresh, &f_side.path(root), &Query::CheckResolved)
-            } else {
-                let script = ReaderScript::from_json(&serde_json::from_str(&script_text).unwrap()).unwrap();
-                reader_answer(&observe_f, &fresh, root, &script)
-            };
+            let expected = sequentially(|| {
+                if script_text == "\"check_resolved\"" {
+                    observe_f.ask_raw(&fresh, &f_side.path(root), &Query::CheckResolved)
+                } else {
+                    let script = ReaderScript::from_json(&serde_json::from_str(&script_text).unwrap()).unwrap();
+                    reader_answer(&observe_f, &fresh, root, &script)
+                }
+            });
             log.push(json!({"task": "oracle", "kind": "expected", "version": version, "root": root, "script": script_text, "answer": expected}));
         }
     }
@@ -300,8 +351,8 @@ fn scenario(workload: Arc<Workload>, run_dir: PathBuf, log: Arc<Log>) {
     let fresh = fresh_session(&f_side, &final_model);
     for root in workload.roots.iter().copied() {
         for query in [Query::Analyze, Query::Execute] {
-            let actual = observe_s.ask(state.owner.compiler(), &s_side.path(root), &query);
-            let expected = observe_f.ask(&fresh, &f_side.path(root), &query);
+            let actual = sequentially(|| observe_s.ask_raw(state.owner.compiler(), &s_side.path(root), &query));
+            let expected = sequentially(|| observe_f.ask_raw(&fresh, &f_side.path(root), &query));
             log.push(json!({"task": "oracle", "kind": "quiescent", "root": root, "query": query.label(),
                 "equal": actual == expected, "actual": clip(&actual), "expected": clip(&expected)}));
         }
@@ -331,7 +382,7 @@ fn apply_owner_op(state: &mut OwnerState, s_side: &Side, op: &Op) {
         | Op::Ask { root, query } | Op::AskSnapshot { root, query } => {
             state.model.name(*root);
             let observer = Observer { side: s_side, strictness: Strictness::Exact };
-            let _ = observer.ask(state.owner.compiler(), &s_side.path(*root), query);
+            let _ = observer.ask_raw(state.owner.compiler(), &s_side.path(*root), query);
             state.model.after_query();
         }
         | Op::Evict => salsa::Database::trigger_lru_eviction(state.owner.compiler_mut()),
@@ -397,11 +448,14 @@ fn judge(events: &[Value], failure: Option<&str>) -> Option<(String, String)> {
         if event["kind"] == "edit-panicked" || event["kind"] == "task-died" {
             return Some(("C17:panic".into(), format!("a task panicked: {}", event["what"])));
         }
+        if event["kind"] == "expected" {
+            continue;
+        }
         if event["kind"] == "analysis" || event["kind"] == "check_resolved" {
             let (snapshot, result) = (event["snapshot"].as_u64().unwrap(), event["result"].as_u64().unwrap());
             let overlapped = edits.iter().any(|(invoke, ret)| *invoke < result && *ret > snapshot);
             match event["status"].as_str().unwrap() {
-                | "cancelled" if !overlapped => {
+                | "cancelled" if !overlapped && !real_panic => {
                     return Some((
                         "C17:illegal-cancel".into(),
                         format!("{} #{} was cancelled although no edit overlapped it", event["task"], event["index"]),
@@ -410,7 +464,21 @@ fn judge(events: &[Value], failure: Option<&str>) -> Option<(String, String)> {
                 | "crashed" => {
                     let detail = event["detail"].as_str().unwrap_or("");
                     if detail.starts_with("panic(") {
-                        return Some(("C17:panic".into(), format!("{} #{} panicked: {}", event["task"], event["index"], clip(detail))));
+                        // a panic the sequential execution reproduces is a totality / type-safety
+                        // matter (C01, C10), not a concurrency defect
+                        let script = if event["kind"] == "check_resolved" { "\"check_resolved\"".to_string() } else { event["script"].to_string() };
+                        let key = (event["version"].as_u64().unwrap(), event["root"].as_u64().unwrap(), script);
+                        if expected.get(&key).map(|answer| answer == detail).unwrap_or(false) {
+                            continue;
+                        }
+                        return Some((
+                            "C17:panic".into(),
+                            format!(
+                                "{} #{} panicked ({}) although the sequential execution on its snapshot's contents gives `{}`",
+                                event["task"], event["index"], clip(detail),
+                                clip(expected.get(&key).map(String::as_str).unwrap_or("<not computed>"))
+                            ),
+                        ));
                     }
                     if !real_panic {
                         return Some((
@@ -424,6 +492,22 @@ fn judge(events: &[Value], failure: Option<&str>) -> Option<(String, String)> {
                             ),
                         ));
                     }
+                }
+                // (judged for open documents only: a path that is not open has no revision, and what
+                // the server should do for it while a client opens and closes it is not stated)
+                | "completed"
+                    if event["committed"] == true
+                        && event["document_unchanged"] == false
+                        && !event["revision_before"].is_null() =>
+                {
+                    return Some((
+                        "C17:stale-commit".into(),
+                        format!(
+                            "{} #{} analysed {} at document revision {} and its result passed the revision check (revision {} at commit) although the open document's text had changed in between: results of one revision reported for another",
+                            event["task"], event["index"], SLOTS[event["root"].as_u64().unwrap() as usize],
+                            event["revision_before"], event["revision_after"]
+                        ),
+                    ));
                 }
                 | "completed" => {
                     let script = if event["kind"] == "check_resolved" { "\"check_resolved\"".to_string() } else { event["script"].to_string() };
@@ -481,6 +565,10 @@ fn run_child(run_dir: &PathBuf, key: u64, workload: &Workload) -> Value {
             let path = std::env::var("CONCSIM_PANIC_LOG").ok();
             std::panic::set_hook(Box::new(move |info| {
                 use std::io::Write;
+                // A panic that the harness catches at the top of a task must not make shuttle
+                // believe the whole test is over (it would close every semaphore): mark it as a
+                // benign unwind; the catch sites call `caught_real_panic` to balance it.
+                unsafe { __shuttle_benign_unwind(1) };
                 let mut first = FIRST_PANIC.lock().unwrap_or_else(|e| e.into_inner());
                 if first.is_none() {
                     *first = Some(info.to_string());
@@ -538,9 +626,11 @@ fn verdict(record: &Value) -> Option<(String, String)> {
     let events: Vec<Value> = record["events"].as_array().cloned().unwrap_or_default();
     // a real panic anywhere is the primary failure: what shuttle reports afterwards
     // (deadlock, poisoned state) is a consequence of it
-    if let Some(first) = record["first_panic"].as_str() {
-        let first = first.replace(|c: char| c.is_ascii_digit(), "#");
-        return Some(("C17:panic".into(), format!("a task panicked: {}", clip(&first))));
+    if record["failure"].is_string() {
+        if let Some(first) = record["first_panic"].as_str() {
+            let first = first.replace(|c: char| c.is_ascii_digit(), "#");
+            return Some(("C17:panic".into(), format!("the execution died after a panic no task handler caught: {}", clip(&first))));
+        }
     }
     judge(&events, record["failure"].as_str())
 }
@@ -654,6 +744,11 @@ fn run(args: &[String]) {
                     bump(&mut probes, &format!("{}:{}", event["kind"].as_str().unwrap(), status), 1);
                     if status == "completed" && overlapped {
                         bump(&mut probes, "completed_although_overtaken_by_an_edit", 1);
+                    }
+                    if event["committed"] == true {
+                        bump(&mut probes, "analysis_committed(revision check passed)", 1);
+                    } else if status == "completed" && event["kind"] == "analysis" {
+                        bump(&mut probes, "analysis_superseded(revision check failed)", 1);
                     }
                     if status == "crashed" {
                         bump(&mut probes, &format!("crashed:{}", event["detail"].as_str().unwrap_or("").chars().take(48).collect::<String>()), 1);
